@@ -311,6 +311,9 @@ class Symex:
         # optional model of the uninterpreted vocabulary: oracle(sx, atom) -> True | False | None decides an atom
         # (recorded on the path, no fork); None leaves the atom to decision replay
         self.oracle = oracle
+        # concrete_key(term) -> True: terms the scenario declares structurally comparable are plain keys of a concrete dict
+        # (``d.get(k, default)`` gives the default, ``d[k]`` a KeyError when absent) instead of a symbolic lookup
+        self.concrete_key = None
         # occurrence(name) -> True: results of these uninterpreted calls are tagged with the number of the call
         # event (T("occ", term, k)), so that a value computed once and used twice is distinguishable from two calls
         self.occurrence = occurrence
@@ -1363,6 +1366,8 @@ class Symex:
             if isinstance(obj, dict) and isinstance(k, T):
                 if k in obj:
                     return obj[k]
+                if self.concrete_key is not None and self.concrete_key(k):
+                    raise Raised("KeyError", None, n)
             return T("item", _freeze(obj), _freeze(k))
         try:
             return obj[k]
@@ -2254,8 +2259,9 @@ class Symex:
                         return o[k]
                 except TypeError:
                     self.unsupported(node, "unhashable key")
-                if isinstance(k, T) and o and any(isinstance(x, T) or True for x in o):
+                if isinstance(k, T) and o and not (self.concrete_key is not None and self.concrete_key(k)):
                     # symbolic key against a concrete table: undecidable here -> symbolic lookup
+                    # (unless the scenario declares terms of this kind to be compared structurally: concrete_key)
                     return T("mcall", _freeze(o), "get", tuple(_freeze(x) for x in a), ())
                 return a[1] if len(a) > 1 else kw.get("default")
             if isinstance(o, _Counter) and attr in ("update", "subtract", "most_common", "elements", "total", "copy"):
